@@ -26,7 +26,12 @@ TVTeardown == /\ l <= Len(Rec) /\ Rec[l].ev = "teardown"
               /\ viol' = AddViol(viol, (IF Rec[l].nleaked > 0 THEN {"X04/descriptor-left-open-after-all-listeners-and-connections-were-dropped"} ELSE {})
                                        \cup (IF Rec[l].nlost > 0 THEN {"X04/foreign-descriptor-closed"} ELSE {}), cur)
               /\ l' = l + 1 /\ UNCHANGED <<s, judged, cur>>
-TVNext == TVReset \/ TVStep \/ TVTeardown
+\* the process under test was killed by a signal while this case ran (recorded by the driver; `begin` marks the letter that
+\* was in progress): judged like any other observation -- whatever the property, an input that kills the process breaks it
+TVCrashAny == /\ l <= Len(Rec) /\ Rec[l].ev \in {"crash", "begin"}
+              /\ viol' = IF Rec[l].ev = "crash" THEN AddViol(viol, {"ANY/process-killed-by-signal-" \o Str(Rec[l].signal)}, Rec[l].id) ELSE viol
+              /\ l' = l + 1 /\ UNCHANGED <<s, judged, cur>>
+TVNext == TVReset \/ TVStep \/ TVTeardown \/ TVCrashAny
 TVSpec == TVInit /\ [][TVNext]_tvars
 Post == PostOK
 Report == ReportAt(l, judged, viol)
